@@ -1,0 +1,17 @@
+//go:build verif
+// +build verif
+
+// Verification hooks for property C17 (see /verif): add-only wrappers that
+// expose the unexported back-off computation and schedule position unchanged.
+package retry
+
+import "time"
+
+// VerifRetryIn calls the unexported retryIn (one rand.Float64 draw).
+func (r Retry) VerifRetryIn() time.Duration { return r.retryIn() }
+
+// VerifCurrentAttempt returns the unexported currentAttempt field.
+func (r *Retry) VerifCurrentAttempt() int { return r.currentAttempt }
+
+// VerifIsReset returns the unexported isReset field.
+func (r *Retry) VerifIsReset() bool { return r.isReset }
